@@ -229,13 +229,18 @@ def make_msg(cid: int, body_lines=2, extra_headers="") -> bytes:
 class World:
     """A mail root, one IMAPUserServer, any number of Authenticated sessions."""
 
-    def __init__(self, seed=0, pack_limits=None, jitter=None):
+    def __init__(self, seed=0, pack_limits=None, jitter=None, root=None):
         _patch_aiosqlite()
         self._jitter = jitter
-        self.tmp = Path(tempfile.mkdtemp(prefix="asimap-verif-"))
-        self.root = self.tmp / "Mail"
-        self.root.mkdir()
-        mailbox.MH(str(self.root / "inbox"), create=True)
+        self.own_dir = root is None
+        if root is None:
+            self.tmp = Path(tempfile.mkdtemp(prefix="asimap-verif-"))
+            self.root = self.tmp / "Mail"
+            self.root.mkdir()
+            mailbox.MH(str(self.root / "inbox"), create=True)
+        else:                      # an existing mail directory (crash recovery runs): the caller owns it
+            self.root = Path(root)
+            self.tmp = self.root.parent
         self.loop = VLoop()
         self.loop._jitter = None  # switched on by set_jitter() for the concurrent phase only
         asyncio.set_event_loop(self.loop)
@@ -326,7 +331,8 @@ class World:
 
             Mailbox.FOLDER_SIZE_PACK_LIMIT = 100
             Mailbox.FOLDER_RATIO_PACK_LIMIT = 0.8
-            shutil.rmtree(self.tmp, ignore_errors=True)
+            if self.own_dir:
+                shutil.rmtree(self.tmp, ignore_errors=True)
 
     def __enter__(self):
         return self
